@@ -35,3 +35,75 @@ func symxC06A() {
 	}
 	rt.Cover(n == int(max)+1, "C06.reached_exhaustion")
 }
+
+func symxFree(iv []interval, id int32) bool {
+	for _, x := range iv {
+		if x.from < id && id <= x.to {
+			return true
+		}
+	}
+	return false
+}
+
+func symxInvariant(iv []interval, min, max int32) bool {
+	prev := min - 1
+	for _, x := range iv {
+		if !(prev <= x.from && x.from < x.to && x.to <= max) {
+			return false
+		}
+		prev = x.to
+	}
+	return true
+}
+
+// symxC06B: one operation from an arbitrary valid allocator state on the production-sized range.
+// The pre-state is any sorted list of <= n non-overlapping free intervals (from,to]; the
+// post-condition is checked for an arbitrary probe identifier, so it holds for every identifier.
+func symxC06B() {
+	nmax := rt.Param("intervals", 3)
+	max := int32(rt.Int("max", 0, 65535))
+	n := int(rt.Int("n", 0, int64(nmax)))
+	pre := make([]interval, n)
+	for k := range pre {
+		pre[k] = interval{from: int32(rt.Int("from", -1, 65535)), to: int32(rt.Int("to", -1, 65535))}
+	}
+	rt.Assume(symxInvariant(pre, 0, max))
+	work := make([]interval, n)
+	copy(work, pre)
+	p := &simpleMidPool{min: 0, max: max, intervals: work}
+	probe := int32(rt.Int("probe", -2, 65537))
+	wasFree := symxFree(pre, probe)
+	if rt.Bool("get") {
+		var v int32
+		panicked := symxSafely(func() { v = p.Get() })
+		rt.Assert(!panicked, "C06.step.no_panic")
+		if n == 0 {
+			rt.Assert(v == -1, "C06.step.exhaustion_reported")
+			rt.Assert(len(p.intervals) == 0, "C06.step.exhausted_state_unchanged")
+		} else {
+			rt.Assert(v >= 0 && v <= max, "C06.step.in_range")
+			rt.Assert(symxFree(pre, v), "C06.step.handed_out_id_was_free")
+			rt.Assert(symxInvariant(p.intervals, 0, max), "C06.step.invariant_after_get")
+			rt.Assert(symxFree(p.intervals, probe) == (wasFree && probe != v), "C06.step.get_removes_exactly_that_id")
+		}
+	} else {
+		x := int32(rt.Int("x", -2, 65537))
+		panicked := symxSafely(func() { p.Put(x) })
+		rt.Assert(!panicked, "C06.step.no_panic")
+		rt.Assert(symxInvariant(p.intervals, 0, max), "C06.step.invariant_after_put")
+		inRange := x >= 0 && x <= max
+		rt.Assert(symxFree(p.intervals, probe) == (wasFree || (inRange && probe == x)), "C06.step.put_frees_exactly_that_id")
+		rt.Cover(inRange && symxFree(pre, x), "C06.step.put_of_free_id")
+		rt.Cover(inRange && !symxFree(pre, x) && n == nmax, "C06.step.put_of_outstanding_id")
+	}
+}
+
+func symxSafely(f func()) (panicked bool) {
+	defer func() {
+		if r := recover(); r != nil {
+			panicked = true
+		}
+	}()
+	f()
+	return false
+}
